@@ -283,6 +283,17 @@ fn pack_record(out_path: &str, runs: usize, max_files: usize, flags: &[&str]) {
         }
         out.put(&pack_event(&map, "full"));
     }
+    // "including empty files": every empty / non-empty pattern over 1..5 files (first, middle, last, all, none)
+    for n in 1..=5usize {
+        for mask in 0..(1usize << n) {
+            let mut map: IndexMap<String, Vec<u8>> = IndexMap::new();
+            for i in 0..n {
+                let body = if mask & (1 << i) != 0 { let len = pack_random_len(&mut rng).max(1); rng.bytes(len) } else { Vec::new() };
+                map.insert(format!("p{}_{}", mask, i), body);
+            }
+            out.put(&pack_event(&map, "full"));
+        }
+    }
     if flags.contains(&"bounds") {
         for n in PACK_COUNT_BOUNDS {
             let map = pack_many_files(&mut rng, *n);
@@ -507,12 +518,14 @@ fn arc_layout(rng: &mut Rng, names: &[String], bodies: &[Vec<u8>], allow_errors:
     let end = pos;
     // planted defect
     let kind = if allow_errors && rng.chance(1, 5) {
-        *rng.pick(if n == 0 { &["nocount", "noinfo"][..] } else { &["nocount", "noinfo", "noname", "end", "start", "words", "words", "wrapsum"][..] })
+        *rng.pick(if n == 0 { &["nocount", "noinfo"][..] } else { &["nocount", "noinfo", "noname", "nameptr", "nameptr", "end", "start", "words", "words", "wrapsum"][..] })
     } else {
         "ok"
     };
     let victim = if n > 0 { rng.below(n) } else { 0 };
     // pass 2: bytes
+    let nameptr_listed = rng.chance(2, 3);
+    let mut nameptr_target = 0usize;
     let mut data = vec![0u8; base];
     for it in &placed {
         match it {
@@ -566,7 +579,15 @@ fn arc_layout(rng: &mut Rng, names: &[String], bodies: &[Vec<u8>], allow_errors:
                         let a = body_addr[*f].max(1);
                         size = 0x1_0000_0000u64 - a as u64 + rng.below(a.min(4)) as u64; // < 2^32: it is the stored word
                     }
-                    data.extend([0u8; 4]);
+                    if j == victim && kind == "nameptr" {
+                        // the name cell holds a value that is an address of the data region (end included), not a
+                        // string reference; whether it is also listed in the pointer table is decided below
+                        let t = match rng.below(6) { 0 => 0, 1 => info_addr + 16 * j, 2 => end - 4, 3 => end - 1, 4 => end, _ => rng.below(end + 1) };
+                        nameptr_target = t;
+                        data.extend(le32(if nameptr_listed { 0 } else { t }));
+                    } else {
+                        data.extend([0u8; 4]);
+                    }
                     data.extend(le32(if rng.chance(1, 2) { *f } else { j }));
                     data.extend((size as u32).to_le_bytes());
                     data.extend((off as u32).to_le_bytes());
@@ -580,7 +601,7 @@ fn arc_layout(rng: &mut Rng, names: &[String], bodies: &[Vec<u8>], allow_errors:
     let text: Vec<Value> = recs
         .iter()
         .enumerate()
-        .filter(|(j, _)| !(kind == "noname" && *j == victim))
+        .filter(|(j, _)| !((kind == "noname" || kind == "nameptr") && *j == victim))
         .map(|(j, f)| json!([info_addr + 16 * j, sj(&names[*f])]))
         .collect();
     let mut pairs: Vec<(usize, Value)> = Vec::new();
@@ -608,7 +629,8 @@ fn arc_layout(rng: &mut Rng, names: &[String], bodies: &[Vec<u8>], allow_errors:
         }
     }
     let labels: Vec<Value> = labels.into_iter().map(|(a, v)| json!([a, v])).collect();
-    let content = json!({"endian": "le", "data": bytes_to_json(&data), "text": text, "ptrs": [], "labels": labels, "cstr": []});
+    let ptrs: Vec<Value> = if kind == "nameptr" && nameptr_listed { vec![json!([info_addr + 16 * victim, nameptr_target])] } else { vec![] };
+    let content = json!({"endian": "le", "data": bytes_to_json(&data), "text": text, "ptrs": ptrs, "labels": labels, "cstr": []});
     (kind.to_string(), content)
 }
 
@@ -631,16 +653,26 @@ fn arc_record(out_path: &str, runs: usize, max_files: usize, counts: &[usize]) {
         let bodies: Vec<Vec<u8>> = (0..*n).map(arc_rule_body).collect();
         let (_, content) = arc_layout(&mut rng, &names, &bodies, false);
         let img = match build_image(&content) {
-            Ok(img) if container_content(&img).as_ref() == Some(&content) => img,
-            other => {
-                out.put(&json!({"kind": "unbuildable", "src": "rule", "content": {"n": n}, "result": {"unbuildable": format!("{:?}", other.map(|b| b.len()))}}));
+            Ok(img) => img,
+            Err(e) => {
+                out.put(&json!({"kind": "unbuildable", "src": "rule", "content": {"n": n}, "result": {"unbuildable": e}}));
                 continue;
             }
         };
         if *n <= 1000 {
             // small enough for TLC to validate content and extraction in full
-            out.put(&json!({"kind": "ok", "src": "rule", "content": content, "result": arc_extract(&img)}));
+            if container_content(&img).as_ref() == Some(&content) {
+                out.put(&json!({"kind": "ok", "src": "rule", "content": content, "result": arc_extract(&img)}));
+            } else {
+                out.put(&json!({"kind": "unbuildable", "src": "rule", "content": {"n": n}, "result": {"unbuildable": "container round trip differs (C01)"}}));
+                continue;
+            }
         }
+        // The large images are not gated by mila's own container reader (an arc with 2^16 records that it cannot
+        // read is a finding of this property); instead TLC checks the header totals of the image against the
+        // content that was built.
+        let n_strings = content["text"].as_array().unwrap().len();
+        let n_labels: usize = content["labels"].as_array().unwrap().iter().map(|l| l[1].as_array().unwrap().len()).sum();
         // summary: number of entries and a sample of them, looked up by the rule's name
         prime_with_damaged_copies(&img, &[], &|b| {
             let _ = mila::arc::from_bytes(b);
@@ -664,7 +696,7 @@ fn arc_record(out_path: &str, runs: usize, max_files: usize, counts: &[usize]) {
             Ok(Err(e)) => json!({"ok": false, "count": 0, "sample": [], "err": format!("{:?}", e)}),
             Err(p) => json!({ "panic": p }),
         };
-        out.put(&json!({"kind": "big", "src": "rule", "desc": {"n": n, "image_bytes": img.len()}, "result": result}));
+        out.put(&json!({"kind": "big", "src": "rule", "desc": {"n": n, "image_bytes": img.len(), "strings": n_strings, "labels": n_labels, "head": head32(&img)}, "result": result}));
     }
     for _ in 0..runs {
         let (kind, content) = arc_random_content(&mut rng, max_files);
@@ -896,9 +928,53 @@ fn event_of(r: &RoundTrip, src: &str, value: Value, byte_limit: usize, text_limi
 /// (Canon is cubic in the number of strings); same constant as ImageLimit in spec/MC_ASet.tla
 const IMAGE_TEXT_LIMIT: usize = 48;
 
-fn aset_record(out_path: &str, runs: usize, max_sets: usize) {
+/// first 32 bytes of an image (the container header) for the rule-built large values
+fn head32(bytes: &[u8]) -> Value {
+    bytes_to_json(&bytes[..32.min(bytes.len())])
+}
+/// A large value built by rule: n_sets sets, each with its first `slots` slots present (names from a small pool),
+/// labelled "L<i>" or not; meta present, clip table empty.  Too large to travel as JSON: the event carries the
+/// rule, the header of the image and the round-trip flags; spec/ASet.tla (BigTotals) decides the header totals.
+fn aset_big_event(n_sets: usize, slots: usize, labelled: bool) -> Value {
+    let rule = json!({"n_sets": n_sets, "slots": slots, "labelled": labelled, "meta": true, "clips": 0});
+    let r = catch(|| -> Result<Value, String> {
+        let mut a = ASetFile::new(Some("rule".to_string()));
+        a.anim_clip_table = vec![None; 257];
+        for i in 0..n_sets {
+            let mut set: Vec<Option<String>> = vec![None; 257];
+            if labelled {
+                set[0] = Some(format!("L{}", i));
+            }
+            for k in 1..=slots {
+                set[k] = Some(format!("s{}", (i * 7 + k) % 300));
+            }
+            a.sets.push(set);
+        }
+        let bytes = a.serialize().map_err(|e| format!("serialize: {}", e))?;
+        prime_with_damaged_copies(&bytes, &[], &|b| {
+            let _ = BinArchive::from_bytes(b, Endian::Little);
+        });
+        let ar = BinArchive::from_bytes(&bytes, Endian::Little).map_err(|e| format!("from_bytes: {}", e))?;
+        let b = ASetFile::from_archive(&ar).map_err(|e| format!("from_archive: {}", e))?;
+        let equal = b.meta == a.meta && b.anim_clip_table == a.anim_clip_table && b.sets == a.sets;
+        let again = b.serialize().map(|x| x == bytes).map_err(|e| format!("reserialize: {}", e))?;
+        Ok(json!({"src": "rule", "status": "ok", "rule": rule, "len": bytes.len(), "head": head32(&bytes), "reparsed_equal": equal, "re_same": again}))
+    });
+    match r {
+        Ok(Ok(v)) => v,
+        Ok(Err(e)) => json!({"src": "rule", "status": e, "rule": rule, "len": 0, "head": [], "reparsed_equal": false, "re_same": false}),
+        Err(p) => json!({"src": "rule", "status": format!("panic {}", p), "rule": rule, "len": 0, "head": [], "reparsed_equal": false, "re_same": false}),
+    }
+}
+
+fn aset_record(out_path: &str, runs: usize, max_sets: usize, big: bool) {
     let mut rng = Rng::new(seed_from_env());
     let mut out = NdWriter::create(out_path);
+    if big {
+        out.put(&aset_big_event(330, 200, true)); // 66 000 string cells: pointer table crosses 2^16
+        out.put(&aset_big_event(65_600, 0, true)); // 65 601 labels: label table crosses 2^16
+        out.put(&aset_big_event(300, 1, false)); // control well below the boundaries
+    }
     // the repository's sample file: value = what mila reads from it
     if let Ok(file) = std::fs::read(format!("{}/resources/test/FE14Aset_Test.bin", mila_dir())) {
         prime_with_damaged_copies(&file, &[], &|b| {
@@ -1092,9 +1168,50 @@ fn asset_random_spec(rng: &mut Rng) -> AssetSpec {
     asset_u32_fields!(un);
     s
 }
-fn asset_record(out_path: &str, runs: usize, max_specs: usize) {
+/// A large asset binary built by rule: n_specs specs, each with a name and every optional STRING field present
+/// (values from a small pool), no typed field.  The event carries the rule (incl. the names of the present
+/// fields), the image header and the round-trip flags; spec/AssetBinary.tla (BigTotals) decides the totals.
+fn asset_big_event(n_specs: usize) -> Value {
+    let mut present: Vec<String> = Vec::new();
+    macro_rules! names { ($($n:ident),*) => { $( present.push(stringify!($n).to_string()); )* } }
+    asset_str_fields!(names);
+    let rule = json!({"n_specs": n_specs, "present": present, "named": true});
+    let r = catch(|| -> Result<Value, String> {
+        let mut a = AssetBinary::new();
+        a.flags = 0x0102_0304;
+        for i in 0..n_specs {
+            let mut sp = AssetSpec::new();
+            sp.name = Some(format!("n{}", i % 500));
+            let mut k = 0usize;
+            macro_rules! st { ($($n:ident),*) => { $( { k += 1; sp.$n = Some(format!("v{}", (i + k) % 400)); } )* } }
+            asset_str_fields!(st);
+            a.specs.push(sp);
+        }
+        let bytes = a.serialize().map_err(|e| format!("serialize: {}", e))?;
+        prime_with_damaged_copies(&bytes, &[], &|b| {
+            let _ = BinArchive::from_bytes(b, Endian::Little);
+        });
+        let ar = BinArchive::from_bytes(&bytes, Endian::Little).map_err(|e| format!("from_bytes: {}", e))?;
+        let b = AssetBinary::from_archive(&ar).map_err(|e| format!("from_archive: {}", e))?;
+        let equal = b.flags == a.flags && b.specs.len() == a.specs.len()
+            && a.specs.iter().zip(b.specs.iter()).all(|(x, y)| asset_spec_to_json(x, false) == asset_spec_to_json(y, false));
+        let again = b.serialize().map(|x| x == bytes).map_err(|e| format!("reserialize: {}", e))?;
+        Ok(json!({"src": "rule", "status": "ok", "rule": rule, "len": bytes.len(), "head": head32(&bytes), "reparsed_equal": equal, "re_same": again}))
+    });
+    match r {
+        Ok(Ok(v)) => v,
+        Ok(Err(e)) => json!({"src": "rule", "status": e, "rule": rule, "len": 0, "head": [], "reparsed_equal": false, "re_same": false}),
+        Err(p) => json!({"src": "rule", "status": format!("panic {}", p), "rule": rule, "len": 0, "head": [], "reparsed_equal": false, "re_same": false}),
+    }
+}
+
+fn asset_record(out_path: &str, runs: usize, max_specs: usize, big: bool) {
     let mut rng = Rng::new(seed_from_env());
     let mut out = NdWriter::create(out_path);
+    if big {
+        out.put(&asset_big_event(1_930)); // 1 930 x 34 = 65 620 string cells: pointer table crosses 2^16
+        out.put(&asset_big_event(100)); // control
+    }
     if let Ok(file) = std::fs::read(format!("{}/resources/test/AssetBinary_Test.bin", mila_dir())) {
         prime_with_damaged_copies(&file, &[], &|b| {
             let _ = BinArchive::from_bytes(b, Endian::Little).map(|ar| AssetBinary::from_archive(&ar).map(|_| ()));
@@ -1144,12 +1261,14 @@ fn main() {
             arc_record(out, runs.parse().unwrap(), max_files.parse().unwrap(), &counts)
         }
         ["aset-replay", cases, out] => aset_replay(cases, out),
-        ["aset-record", out, runs, max_sets] => aset_record(out, runs.parse().unwrap(), max_sets.parse().unwrap()),
+        ["aset-record", out, runs, max_sets] => aset_record(out, runs.parse().unwrap(), max_sets.parse().unwrap(), false),
+        ["aset-record", out, runs, max_sets, "big"] => aset_record(out, runs.parse().unwrap(), max_sets.parse().unwrap(), true),
         ["asset-replay", cases, out] => asset_replay(cases, out),
-        ["asset-record", out, runs, max_specs] => asset_record(out, runs.parse().unwrap(), max_specs.parse().unwrap()),
+        ["asset-record", out, runs, max_specs] => asset_record(out, runs.parse().unwrap(), max_specs.parse().unwrap(), false),
+        ["asset-record", out, runs, max_specs, "big"] => asset_record(out, runs.parse().unwrap(), max_specs.parse().unwrap(), true),
         _ => usage(
             "mvh_cont <pack|arc|aset|asset>-replay <cases> <out> | pack-record <out> <runs> <max_files> [bounds] [big] | \
-             arc-record <out> <runs> <max_files> [record counts...] | aset-record <out> <runs> <max_sets> | asset-record <out> <runs> <max_specs>",
+             arc-record <out> <runs> <max_files> [record counts...] | aset-record <out> <runs> <max_sets> [big] | asset-record <out> <runs> <max_specs> [big]",
         ),
     }
 }
